@@ -439,7 +439,7 @@ func (c *Ctx) checkAbsentName() {
 // checkShardedAgreement implements M4.
 func (c *Ctx) checkShardedAgreement() {
 	r := c.R
-	loaders := c.G.Fetchers(map[string]bool{"hamt": true})
+	loaders := c.G.Loaders(map[string]bool{"hamt": true})
 	pred, _ := newDischarger(c).findLinkPredicate()
 	if pred == nil {
 		r.Violate("M4", "hamt/link-predicate", "-", "no link predicate found")
